@@ -3,10 +3,16 @@
    is absorbed before the next orthogonalisation (a second orthogonalisation is refused), and after canonize_(to='last') every site carries the
    left-canonical flag (the mirror statement for to='first' is covered by the trace correspondence); (ii) the composition of discarded weights:
    the number returned by truncate_ is 1 - prod_i (1 - d_i) of the local relative weights, lies in [0, 1], and is 0 iff nothing is discarded.
-   NOT proved (premises: QR/SVD per block; validated numerically): state preservation, isometries, Schmidt values and entropies vs the dense
+   (iii) state preservation by gauge moves (Mps/Gauge.v, any commutative ring): if the matrices of a site factor as A[s] = Q[s].R (resp. B[s] = L.Q[s])
+   -- the PREMISE delivered by the blockwise QR, validated numerically on every real move -- then replacing (A, B) by (Q, R.B) (resp. (A.L, Q)) anywhere
+   in a chain leaves the amplitude of EVERY configuration unchanged, and so does every finite sequence of such moves (canonize_ in either direction,
+   any number of times); a central block left on a bond is equivalent to its absorption into either neighbour (tied exactly to absorb_central_).
+   NOT proved (premises: QR/SVD per block; validated numerically): isometries, Schmidt values and entropies vs the dense
    state, equality of the reported number with the true relative distance. *)
 From Coq Require Import List ZArith QArith.
+From Coq Require Import Ring InitialRing.
 From Yv Require Import Mps.Canon Mps.CanonLaws.
+From Yv Require Mps.Gauge.
 Import ListNotations.
 
 Theorem C08_never_stuck st to : exists st', canonize st to = Some st' /\ pC st' = None /\ N st' = N st.
@@ -33,7 +39,49 @@ Example C08_nonvacuous :
   exists st', canonize {| N := 3; pC := Some (1, 2)%Z; flags := [FNone; FNone; FNone] |} ToLast = Some st' /\ flags st' = [FLeft; FLeft; FLeft].
 Proof. split; [reflexivity|]. eexists. split; vm_compute; reflexivity. Qed.
 
+(* --- gauge moves preserve the represented state --- *)
+Section GaugeMoves.
+Variable R : Type.
+Variables (r0 r1 : R) (radd rmul rsub : R -> R -> R) (ropp : R -> R).
+Hypothesis Rth : ring_theory r0 r1 radd rmul rsub ropp (@eq R).
+Notation prop := (Gauge.prop R r0 radd rmul).
+Notation msite := (Gauge.msite R).
+
+Theorem C08_move_right dl u (sA sB sQ : msite) Rm s1 s2 j : Gauge.factors_right R r0 radd rmul (Gauge.dr R sQ) sA sQ Rm ->
+  prop dl u [sA; sB] [s1; s2] j = prop dl u [sQ; Gauge.absorb_right R r0 radd rmul sB Rm (Gauge.dr R sA)] [s1; s2] j.
+Proof. exact (Gauge.move_right R r0 r1 radd rmul rsub ropp Rth dl u sA sB sQ Rm s1 s2 j). Qed.
+
+Theorem C08_move_left dl u (sA sB sQ : msite) Lm dm s1 s2 j : Gauge.dr R sQ = Gauge.dr R sB -> Gauge.factors_left R r0 radd rmul dm sB sQ Lm ->
+  prop dl u [sA; sB] [s1; s2] j = prop dl u [Gauge.absorb_left R r0 radd rmul sA Lm dm; sQ] [s1; s2] j.
+Proof. exact (Gauge.move_left R r0 r1 radd rmul rsub ropp Rth dl u sA sB sQ Lm dm s1 s2 j). Qed.
+
+(* every finite sequence of moves anywhere in a chain of any length: every amplitude is unchanged *)
+Theorem C08_gauge_moves_preserve_state (c c' : list msite) : Gauge.gauge_steps R r0 radd rmul c c' ->
+  forall dl u sigma, length sigma = length c -> forall j, prop dl u c sigma j = prop dl u c' sigma j.
+Proof. exact (Gauge.gauge_steps_preserve R r0 r1 radd rmul rsub ropp Rth c c'). Qed.
+
+Theorem C08_central_block dl u (sA sB : msite) C dc s1 s2 z j :
+  prop dl u [sA; Gauge.csite R dc C; sB] [s1; z; s2] j = prop dl u [sA; Gauge.absorb_right R r0 radd rmul sB C dc] [s1; s2] j /\
+  prop dl u [sA; Gauge.csite R dc C; sB] [s1; z; s2] j = prop dl u [Gauge.absorb_left R r0 radd rmul sA C dc; sB] [s1; s2] j.
+Proof. split; [exact (Gauge.center_right R r0 r1 radd rmul rsub ropp Rth dl u sA sB C dc s1 s2 z j)
+              | exact (Gauge.center_left R r0 r1 radd rmul rsub ropp Rth dl u sA sB C dc s1 s2 z j)]. Qed.
+End GaugeMoves.
+
+(* a concrete move over Z: A[s] = Q[s].R with R = [[1 2][0 1]] *)
+Example C08_gauge_nonvacuous :
+  let Rm := fun i j : nat => match i, j with 0%nat, 0%nat => 1 | 0%nat, 1%nat => 2 | 1%nat, 1%nat => 1 | _, _ => 0 end%Z in
+  let sQ := {| Gauge.dr := 2; Gauge.Mt := fun s i j => Z.of_nat (1 + s + 2 * i + j) |} in
+  let sA := {| Gauge.dr := 2; Gauge.Mt := fun s => Gauge.mm Z 0%Z Z.add Z.mul 2 (Gauge.Mt Z sQ s) Rm |} in
+  let sB := {| Gauge.dr := 1; Gauge.Mt := fun s i j => Z.of_nat (3 + s * i) |} in
+  Gauge.factors_right Z 0%Z Z.add Z.mul 2 sA sQ Rm /\
+  Gauge.prop Z 0%Z Z.add Z.mul 1 (fun k => if Nat.eqb k 0 then 1%Z else 0%Z) [sA; sB] [1%nat; 0%nat] 0%nat = 27%Z.
+Proof. split; [intros s i j; reflexivity | vm_compute; reflexivity]. Qed.
+
 Print Assumptions C08_never_stuck.
+Print Assumptions C08_move_right.
+Print Assumptions C08_move_left.
+Print Assumptions C08_gauge_moves_preserve_state.
+Print Assumptions C08_central_block.
 Print Assumptions C08_one_center.
 Print Assumptions C08_flags_to_last.
 Print Assumptions C08_discard_compose.
